@@ -39,11 +39,13 @@ CAP = 10
 
 
 class Interp:
-    def __init__(self, gen: int, opened: bool) -> None:
+    def __init__(self, gen: int, opened: bool, refuse_latency: float = 0.0) -> None:
         self.gen = gen
         self.rig = SockRig(gen)
-        self.rig.net.default = ("refuse", 0.0)
-        self.ops = [["init", gen, opened]]
+        # connection attempts are refused after `refuse_latency` seconds: with a non-zero latency sends land both
+        # while an attempt is in flight and during the 2 s back-off
+        self.rig.net.default = ("refuse", refuse_latency)
+        self.ops = [["init", gen, opened, refuse_latency]]
         self.open = False
         self.model: list = []  # dict(exp, expiry, kind)
         self.expect_wire: list = []
@@ -119,12 +121,12 @@ class Interp:
             return
         self.rig.net.default = ("accept", 0.0)
         loop = self.rig.loop
-        for _ in range(40):
+        for _ in range(80):
             if self.rig.sock.is_connected:
                 break
             loop.advance(0.125)
         if not self.rig.sock.is_connected:
-            self.bad("no-connection", "client did not connect within 5 s of the network accepting")
+            self.bad("no-connection", "client did not connect within 10 s of the network accepting")
         # entries alive at the instant of connection
         t_open = [e[0] for e in self.rig.net.log if e[1] == "open"][0]
         alive = [m for m in self.model if t_open < m["expiry"]]
@@ -163,9 +165,11 @@ def make_machine(gen: int, stats: Stats):
             self.x = None
             self.dead = False
 
-        def _ensure(self, opened=True):
+        def _ensure(self, opened=True, lat=0.0):
             if self.x is None:
-                self.x = Interp(gen, opened)
+                self.x = Interp(gen, opened, lat)
+                if lat:
+                    self.x.nt.add("attempt-in-flight")
 
         def _do(self, op):
             if self.dead or stats.bail:
@@ -177,9 +181,9 @@ def make_machine(gen: int, stats: Stats):
                 if stats.filter(v):
                     raise
 
-        @rule(opened=st.sampled_from([True, True, True, True, False]))
-        def start(self, opened):
-            self._ensure(opened)
+        @rule(opened=st.sampled_from([True, True, True, True, False]), lat=st.sampled_from([0.0, 0.0, 0.5, 3.0]))
+        def start(self, opened, lat):
+            self._ensure(opened, lat)
 
         @rule(kp=sockops.kind_and_params(gen), retries=st.integers(0, 3), lifetime=st.sampled_from(LIFETIMES))
         def send(self, kp, retries, lifetime):
@@ -226,12 +230,12 @@ def make_machine(gen: int, stats: Stats):
 
 
 def shards(tier: str):
-    n, steps, reps = (60, 30, 5) if tier == "quick" else (400, 60, 16)
+    n, steps, reps = (150, 30, 8) if tier == "quick" else (800, 60, 16)
     return [{"gen": g, "n": n, "steps": steps, "k": k} for g in (4, 5) for k in range(reps)]
 
 
 def floors(tier: str):
-    return {"overflow": 40, "expired-before-connection": 40, "send-not-open": 20, "connected": 200}
+    return {"overflow": 40, "expired-before-connection": 40, "send-not-open": 20, "connected": 200, "attempt-in-flight": 50}
 
 
 def run_shard(spec, seed: int, tier: str):
@@ -242,7 +246,7 @@ def run_shard(spec, seed: int, tier: str):
 
 def replay(case):
     ops = case["ops"]
-    x = Interp(ops[0][1], ops[0][2])
+    x = Interp(ops[0][1], ops[0][2], ops[0][3] if len(ops[0]) > 3 else 0.0)
     try:
         for op in ops[1:]:
             x.do(op)
